@@ -64,6 +64,44 @@ theorem sum_map_ite_eq {α} [DecidableEq α] (ks : List α) (a : α) (f : α →
       · have : a ∈ t := by simpa [e] using ha
         simp [e, ih nd.2 this]
 
+/-- induction on a history by its last operation -/
+theorem snoc_ind {α} {P : List α → Prop} (h0 : P []) (h1 : ∀ l a, P l → P (l ++ [a])) :
+    ∀ l, P l := by
+  intro l
+  rw [← List.reverse_reverse l]
+  induction l.reverse with
+  | nil => exact h0
+  | cons a t ih => rw [List.reverse_cons]; exact h1 _ _ ih
+
+/-- first occurrences only -/
+def dedup {α} [DecidableEq α] : List α → List α
+  | [] => []
+  | k :: t => if k ∈ dedup t then dedup t else k :: dedup t
+
+theorem mem_dedup {α} [DecidableEq α] (l : List α) (k : α) : k ∈ dedup l ↔ k ∈ l := by
+  induction l with
+  | nil => simp [dedup]
+  | cons a t ih =>
+      simp only [dedup]
+      split
+      · rename_i h
+        rw [ih, List.mem_cons]
+        constructor
+        · exact Or.inr
+        · rintro (e | e)
+          · subst e; rw [← ih]; exact h
+          · exact e
+      · rw [List.mem_cons, List.mem_cons, ih]
+
+theorem nodup_dedup {α} [DecidableEq α] (l : List α) : (dedup l).Nodup := by
+  induction l with
+  | nil => simp [dedup]
+  | cons a t ih =>
+      simp only [dedup]
+      split
+      · exact ih
+      · rename_i h; exact List.nodup_cons.2 ⟨h, ih⟩
+
 /-! ### the head of the sorted list is the minimum -/
 
 theorem sortInts_length (l : List Int) : (CMS.sortInts l).length = l.length := by
@@ -120,6 +158,19 @@ theorem foldl_set_getElem? (idx : List Nat) (f : Nat → Int) (bins : List Int) 
         · subst e2; simp [e, List.getD_eq_getElem?_getD, hj]
         · have : ¬ x = j := fun h => e2 h.symm
           simp [e, e2, List.getD_eq_getElem?_getD, this]
+
+theorem foldl_set_forall (P : Int → Prop) (idx : List Nat) (f : Nat → Int) (bins : List Int)
+    (hf : ∀ x, P (f x)) (hb : ∀ v ∈ bins, P v) :
+    ∀ v ∈ idx.foldl (fun b x => b.set x (f x)) bins, P v := by
+  induction idx generalizing bins with
+  | nil => exact hb
+  | cons x t ih =>
+      rw [List.foldl_cons]
+      apply ih
+      intro v hv
+      rcases List.mem_or_eq_of_mem_set hv with e | e
+      · exact hb v e
+      · subst e; exact hf x
 
 /-! ### clamps -/
 
@@ -250,6 +301,11 @@ theorem bumpBins_getD (c : CMS) (hs : List Nat) (δ : Int) (j : Nat) (hj : j < c
       if j ∈ c.binIdx hs then clamp32 (c.bins.getD j 0 + δ) else c.bins.getD j 0 := by
   rw [List.getD_eq_getElem?_getD, bumpBins_getElem? c hs δ j hj]; rfl
 
+theorem bumpBins_range (c : CMS) (hs : List Nat) (δ : Int)
+    (h : ∀ v ∈ c.bins, Gen.int32Min ≤ v ∧ v ≤ Gen.int32Max) :
+    ∀ v ∈ bumpBins c hs δ, Gen.int32Min ≤ v ∧ v ≤ Gen.int32Max :=
+  foldl_set_forall _ _ _ _ (fun _ => clamp32_range _) h
+
 /-- the values read back at the indices of `hs` are the stored ones -/
 theorem bumpBins_vals (c : CMS) (hs : List Nat) (δ : Int)
     (hany : (c.binIdx hs).any (· ≥ c.bins.length) = false) :
@@ -318,6 +374,14 @@ theorem removeAlt_ret (c : CMS) (hs : List Nat) (n : Int)
   cases hany : (c.binIdx hs).any (· ≥ c.bins.length) with
   | true => simp [CMS.removeAlt, CMS.checkAlt, hany]
   | false => rw [removeAlt_eq c hs n hany hhi, checkAlt_bump c hs (-n) _ hany]
+
+theorem joinCell_range (x y : Int) (hx : Gen.int32Min ≤ x ∧ x ≤ Gen.int32Max) :
+    Gen.int32Min ≤ CMS.joinCell x y ∧ CMS.joinCell x y ≤ Gen.int32Max := by
+  unfold CMS.joinCell
+  split
+  · exact hx
+  · simp only [Gen.int32Min, Gen.int32Max] at *
+    omega
 
 /-! ### when `query` succeeds -/
 
